@@ -475,4 +475,7 @@ def run(ctx):
     _fam.reader(ctx, "C12")
     _fam.mapping_list(ctx, "C12")
     _fam.stack_lookup(ctx, "C12")
-
+    # words are found relative to the copy: a shortened copy must start on a word boundary of the target's stack (same rule instance as
+    # C06/who-is-shortened)
+    from rules import c06 as _c06w
+    _c06w.rule_who_is_shortened(ctx, R="C12/who-is-shortened")
